@@ -610,6 +610,8 @@ func (fc *FnCtx) applyModifies(st *State, ct *FuncContract, bind map[string]Val,
 	}
 	explicit := len(ct.Modifies) > 0
 	var rgns []T
+	var wins []heapWindow
+	var newRgns []T
 	for _, m := range ct.Modifies {
 		v, l, ok := fc.specLoc(st, m, bind)
 		if !ok {
@@ -619,9 +621,23 @@ func (fc *FnCtx) applyModifies(st *State, ct *FuncContract, bind map[string]Val,
 		case VSlice:
 			if l != nil && l.kind == 1 {
 				// a slice-typed field: the field itself may be reassigned and its region written
-				fc.storeLoc(st, *l, fc.freshVal(l.typ, "mod"))
+				nv := fc.freshVal(l.typ, "mod")
+				fc.storeLoc(st, *l, nv)
+				if isByteElem(x.Elem) {
+					rgns = append(rgns, x.Rgn)
+					// the new value is the old backing array or a newly allocated one
+					if ns, ok := nv.(VSlice); ok {
+						fc.axiom(or(eq(ns.Rgn, x.Rgn), le(st.nextR, ns.Rgn), eq(ns.Rgn, mkInt(0))))
+						newRgns = append(newRgns, ns.Rgn)
+					}
+				}
+				break
 			}
-			rgns = append(rgns, x.Rgn)
+			if !isByteElem(x.Elem) {
+				break
+			}
+			// a slice parameter: only the cells of its capacity window [off, off+cap) may be written
+			wins = append(wins, heapWindow{x.Rgn, x.Off, fc.define(add(x.Off, x.Cap), "whi")})
 		case VPtr:
 			pl := fc.ptrLoc(st, x)
 			fc.storeLoc(st, pl, fc.havocLike(fc.load(st, pl), "mod"))
@@ -646,13 +662,16 @@ func (fc *FnCtx) applyModifies(st *State, ct *FuncContract, bind map[string]Val,
 			}
 		}
 	}
-	if len(rgns) > 0 {
-		fc.havocHeap(st, rgns)
+	if len(rgns) > 0 || len(wins) > 0 {
+		fc.havocHeapWindows(st, rgns, wins)
 	}
 	// the callee may allocate
 	nn := fc.fresh("nextR", SInt)
 	fc.axiom(le(st.nextR, nn))
 	st.nextR = nn
+	for _, r := range newRgns {
+		fc.axiom(lt(r, nn))
+	}
 }
 
 func (fc *FnCtx) collectRegions(v Val, out *[]T) {
